@@ -152,6 +152,9 @@ func (in *Interp) raise(v Value) {
 		if p.isX {
 			// the handler runs at the point of the error, on top of the failing frames
 			th.prot[n-1].isX = false // an error inside the handler is not handled again
+			if o, ok := v.(*OStr); ok && o.NoRoom {
+				panic(&LuaError{Val: &OStr{Kind: "any"}, Handled: true})
+			}
 			th.cBoundary++
 			var res []Value
 			failed := false
